@@ -24,6 +24,9 @@ def sh(cmd, cwd=None, timeout=1800, env=None):
 def main():
     seed = sys.argv[1]
     sdir = os.path.join(VERIF, "seeded", seed)
+    if os.path.exists(os.path.join(sdir, "SUPERSEDED.md")):
+        print("%s superseded (see seeded/%s/SUPERSEDED.md); result.json keeps the run on the tree it was written for" % (seed, seed))
+        return
     meta = json.load(open(os.path.join(sdir, "meta.json")))
     checks = sys.argv[2:] or [meta["property"]]
     wt = "/tmp/seedcheck-" + seed
